@@ -245,6 +245,40 @@ def rule_range_form(rep, prog):
     return ok
 
 
+def rule_reset_all(rep, prog):
+    """R9.2.reset: reset() stores 0 into EVERY word: one store, applied to the item of an iteration over self.map itself (no
+    skip / take / filter / step_by in the chain, whether written as a for loop or as for_each)"""
+    eff = effects.Effects(prog)
+    bs = prog.find(adt=BITMAP, name="reset")
+    if len(bs) != 1:
+        rep("R9.2.reset", BITMAP + "::reset", False, "", f"{len(bs)} bodies named reset")
+        return
+    b = bs[0]
+    stores = [(fb, c) for fb in prog.family(b) for c in fb.calls() if re.search(r"sync::atomic::Atomic.*::store$", canon(c.target or ""))]
+    ok = False
+    detail = f"{len(stores)} atomic stores"
+    if len(stores) == 1:
+        fb, c = stores[0]
+        recv = deep_strip(eff.in_parent(fb, c.arg(0))[1]) if fb.kind == "Closure" else deep_strip(c.arg(0))
+        while recv[0] in ('ref', 'deref'):
+            recv = deep_strip(recv[1])
+        zero = deep_strip(c.arg(1)) == ('const', 0)
+        src = None
+        if recv[0] == 'ok' and is_call(deep_strip(recv[1]), "Iterator::next"):
+            chain = deep_strip(deep_strip(recv[1])[2][0])
+            while chain[0] in ('ref', 'deref') or (chain[0] == 'call' and canon(chain[1]).endswith("IntoIterator::into_iter")):
+                chain = deep_strip(chain[1] if chain[0] in ('ref', 'deref') else chain[2][0])
+            src = chain
+        elif is_call(recv, "iter_item"):
+            src = deep_strip(recv[2][0])
+        whole = src is not None and is_call(src, "slice::iter") and any(s[0] == 'field' and s[2] == 'map' and effects.base_of(s[1])[:2] == ('param', 1) for s in subterms(src)) and \
+            not any(is_call(s, "Iterator::skip", "Iterator::take", "Iterator::step_by", "Iterator::filter", "Iterator::take_while", "Iterator::skip_while") for s in subterms(src))
+        direct = src is not None and deep_strip(src[2][0] if src[0] == 'call' else src)[0] in ('call', 'field', 'ref', 'deref')
+        ok = zero and whole
+        detail = f"store({tstr(deep_strip(c.arg(1)))}) on the item of `{tstr(src)[:120] if src is not None else '?'}`"
+    rep("R9.2.reset", b.key, ok, b.where(), detail + "; required: store(0) into every word of self.map (an iteration over the whole vector)")
+
+
 def rule_unit_bitmap(rep, prog):
     n = 0
     for b in prog.bodies:
@@ -269,6 +303,7 @@ def run(ctx, progs):
         rule_is_bit_set(ctx.ob, prog)
         rule_sizes(ctx.ob, prog)
         rule_range_form(ctx.ob, prog)
+        rule_reset_all(ctx.ob, prog)
         # setter/clearer single-bit unit chain is C08's R8.2, shared
         _o, counts = c08.rule_words(ctx.ob, prog, BITMAP, "map")
         n = c05.rule_forwarders(ctx.ob, prog, eff)
